@@ -38,6 +38,7 @@ LEVEL_TEXT = ("Exploration over (configuration, input): for each sub-command eve
               "(indented over several lines with --pretty, a single line without); if the library raises a documented-family "
               "error the tool must exit 1 with a non-empty one-line message on stderr and no traceback (non-zero exit only "
               "under --debug). A foreign library exception belongs to C06 and is excluded here.")
+LEVEL_TEXT += ' Rejected inputs that themselves carry LF / CR / CRLF are in every invalid pool (the message must stay one line).'
 BUDGET_S = {"quick": 75, "thorough": 500}
 RULE = ("Option matrix (64 combinations for path and pointer, 16 for patch) x inputs from the query / pointer / patch generators "
         "incl. each error class. File-sourced expressions are restricted to strings unchanged by .strip(). Non-trivial = an "
